@@ -101,6 +101,10 @@ type StoredData struct {
 }
 
 func (tps *TPS) ClassifyMsg(msgBytes []byte) (uint8, bool, error) {
+	if len(msgBytes) == 0 {
+		return 0, false, fmt.Errorf("empty message")
+	}
+
 	switch msgBytes[0] {
 	case shareDistribution:
 		return shareDistribution, false, nil
@@ -199,6 +203,11 @@ func (tps *TPS) ThresholdPK() ([]byte, error) {
 func (tps *TPS) OnMsg(msgBytes []byte, from uint16, _ bool) {
 	tps.lock.Lock()
 	defer tps.lock.Unlock()
+
+	if len(msgBytes) == 0 {
+		tps.Logger.Warnf("Got an empty message from %d", from)
+		return
+	}
 
 	switch msgBytes[0] {
 	case shareDistribution:
